@@ -197,6 +197,11 @@ class RankSim:
     def launch(self, t: int, tid: int, streams: List[int]) -> int:
         rng = self.rng
         d = self.dur()
+        if d == 0 and self.cfg.event_rate:
+            # with CUDA events in the trace two launch calls of one thread never start in the same microsecond: which of
+            # them "precedes" a cudaEventRecord is decided by an unstable sort in the implementation (numpy's SIMD sort
+            # does not keep the order of equal keys even for five elements) and by nothing in the trace
+            d = self.g
         c = self.next_corr()
         if self.zero_pending:
             if self.zero_countdown <= 0:
